@@ -461,14 +461,15 @@ func runCase(t *testing.T, rt *rapid.T, allow map[string]bool) {
 
 	for k, res := range results {
 		switch {
+		case res.V != nil:
+			// (a verdict reached inside the bubble wins over trouble while leaving the bubble afterwards)
+			if known(rt, s, res.V, k+1) {
+				return
+			}
 		case res.Panic != "":
 			fatal(rt, s, &verdict{Clause: "panic", Text: "panic inside the bubble: " + res.Panic}, k+1)
 		case res.Err != nil:
 			fatal(rt, s, &verdict{Clause: "capture-stalled", Text: fmt.Sprintf("%v\nerror log: %s", res.Err, strings.Join(res.Logs, " | "))}, k+1)
-		case res.V != nil:
-			if known(rt, s, res.V, k+1) {
-				return
-			}
 		}
 	}
 	for k := 1; k < len(results); k++ {
